@@ -159,7 +159,7 @@ def gen_case(rng, malformed=False, hist_len=None, may=False, p_unknown=0.1, p_bu
     if p_self and rng.random() < p_self:
         out['self_model'] = 1               # the machine is its own model
     if p_build and rng.random() < p_build:
-        out['build'] = rng.randint(1, 7)
+        out['build'] = rng.randint(1, 15)
         if out['build'] & 2:
             # make the call-level flag matter: the initial state leaves its setting to the add_states call
             dict(m['states'])[out['init']]['ignore'] = not m['ignore']
@@ -443,9 +443,14 @@ def build_machine(case, world, cls=None, model=None, extra_kwargs=None, models=N
     # machine.on_enter / machine.on_exit; bit 2 = states added after construction by add_states(...,
     # ignore_invalid_triggers=<not the machine's flag>) - states whose own flag equals it leave it to the call -,
     # the model by add_model(initial=...); bit 4 = states given as plain names, their callbacks and settings through the
-    # keyword form add_states(name, on_enter=..., on_exit=..., ignore_invalid_triggers=..., final=...)
+    # keyword form add_states(name, on_enter=..., on_exit=..., ignore_invalid_triggers=..., final=...); bit 8 =
+    # transitions in list form / as positional arguments
     variant = case.get('build', 0) if models is None else 0
     call_ignore = (not m['ignore']) if variant & 2 else None
+    if case.get('self_model') and 'Graph' in cls.__name__:
+        # a graph machine constructed without a model binds get_graph to itself; add_model('self') afterwards is refused
+        # ("Model already has a get_graph attribute") - that route does not exist for graph machines
+        call_ignore = None
     states = []
     later = []
     by_name = []
@@ -515,13 +520,16 @@ def build_machine(case, world, cls=None, model=None, extra_kwargs=None, models=N
                                             loop_includes_initial=od['loop_includes_initial'], **opts)
             continue
         for t in ts:
-            machine.add_transition(
-                'e%d' % e, 's%d' % t['src'], None if t['dst'] is None else 's%d' % t['dst'],
-                conditions=[R('cond', c) for c, tg in t['conds'] if tg],
-                unless=[R('unless', c) for c, tg in t['conds'] if not tg],
-                before=[R('before', c) for c in t['before']],
-                after=[R('after', c) for c in t['after']],
-                prepare=[R('prepare', c) for c in t['prepare']])
+            args = ['e%d' % e, 's%d' % t['src'], None if t['dst'] is None else 's%d' % t['dst'],
+                    [R('cond', c) for c, tg in t['conds'] if tg], [R('unless', c) for c, tg in t['conds'] if not tg],
+                    [R('before', c) for c in t['before']], [R('after', c) for c in t['after']],
+                    [R('prepare', c) for c in t['prepare']]]
+            if variant & 8:
+                # list form / positional: trigger, source, dest, conditions, unless, before, after, prepare
+                machine.add_transitions([args]) if (t['src'] + e) % 2 else machine.add_transition(*args)
+                continue
+            machine.add_transition(args[0], args[1], args[2], conditions=args[3], unless=args[4], before=args[5],
+                                   after=args[6], prepare=args[7])
     if self_mode:
         for name, slot, cb in pending_self:
             if name not in machine.__dict__:
@@ -548,6 +556,9 @@ def get_class(name):
     import transitions
     if name == 'Machine':
         return transitions.Machine
+    if name in ('MarkupMachine', 'HierarchicalMarkupMachine'):
+        import transitions.extensions.markup as mk
+        return getattr(mk, name)
     return getattr(ext, name)
 
 
